@@ -33,7 +33,7 @@ def check_case(ctx, tl, finals, tag, model=None):
     ctx.case(inp if n <= 40 else {"tag": tag, "n": n, "finals": finals}, nontriv)
     ctx.count("size<=4" if n <= 4 else "size<=12" if n <= 12 else "size<=100" if n <= 100 else "size>100")
     r = impl.rdfs(tl, finals, limit=60 if n > 2000 else 20)
-    small = inp if n <= 40 else {"tag": tag, "n": n, "finals": finals, "regen": "see tag"}
+    small = inp if (n <= 40 or tag.startswith("many-finals")) else {"tag": tag, "n": n, "finals": finals, "regen": "see tag"}
     if r["outcome"] != "ok":
         ctx.violation("total", small, {"outcome": r["outcome"], "msg": r.get("msg")})
     else:
@@ -118,6 +118,77 @@ def sequences(ctx, rng):
             return
 
 
+def deep_case(ctx, n, d, f=None):
+    import sys
+    m = __import__("crlib").repo("reverse_dfs")
+    from crlib import quiet
+
+    def at_depth(k, fn):
+        return fn() if k <= 0 else at_depth(k - 1, fn)
+    tl, f = gen.chain_graph(n, back_edges=False)
+    exp = oracle_list(tl, f)
+    ctx.case({"chain": n, "caller_depth": d}, True)
+    try:
+        with quiet():
+            got = at_depth(d, lambda: m.reverse_dfs([list(r) for r in tl], list(f)))
+    except BaseException as e:  # noqa  (RecursionError is the point)
+        got = type(e).__name__
+    if got != exp:
+        ctx.violation("independent-of-caller-stack-depth", {"tag": f"chain:{n}", "n": n, "finals": f, "caller_depth": d},
+                      {"got": got if isinstance(got, str) else got[:20], "expected": exp[:20]})
+        return False
+    return True
+
+
+def replay(ctx, viol):
+    i = viol["input"]
+    if "caller_depth" in i:
+        deep_case(ctx, i["n"], i["caller_depth"])
+    elif "tl" in i and "finals" in i:
+        check_case(ctx, [[tuple(t) for t in row] for row in i["tl"]], i["finals"], i.get("tag", "replay"))
+    elif str(i.get("tag", "")).startswith("chain:"):
+        n = int(i["tag"].split(":")[1])
+        tl, f = gen.chain_graph(n, back_edges=(n % 200 == 0))
+        check_case(ctx, tl, i.get("finals", f), i["tag"])
+    else:
+        print("replay: this recorded input names a generated family; re-run the check with the same VERIF_SEED to regenerate it")
+
+
+def deep_callers(ctx):
+    """'graphs of any size and depth': the answer must not depend on how deep the CALLER already is on the
+    interpreter stack.  Chains just below / around the recursion limit, searched from 0 … 900 frames deep."""
+    import sys
+    m = __import__("crlib").repo("reverse_dfs")
+    from crlib import quiet
+    lim = sys.getrecursionlimit()
+
+    lengths = sorted({200, 500, lim - 200, lim - 150, lim - 100, lim - 80, lim - 66, lim - 50, lim - 10, lim + 100, 2 * lim})
+    for n in lengths:
+        if n < 3:
+            continue
+        for d in (0, 120, 400, lim - 250):
+            if not deep_case(ctx, n, d):
+                return
+
+
+def many_finals(ctx, rng, model):
+    """final lists with a hundred and more entries, with and without repetitions, in any order"""
+    for (n, k, rep) in ((150, 100, 1), (150, 100, 2), (400, 150, 2), (300, 260, 3), (1000, 128, 2), (1000, 512, 1)):
+        tl = []
+        for u in range(n):
+            tl.append([(1, rng.randrange(n)) for _ in range(rng.choice([1, 1, 2]))])
+        base = rng.sample(range(n), k)
+        for variant in ("every final listed %d times" % rep, "one final listed twice", "drawn with replacement"):
+            if variant.startswith("every"):
+                f = base * rep
+            elif variant.startswith("one"):
+                f = base + [base[0]]
+            else:
+                f = [rng.choice(base) for _ in range(k + k // 2)]
+            rng.shuffle(f)
+            check_case(ctx, tl, f, f"many-finals:n{n}:k{k}:{variant}", model)
+
+
 def board_graph(rng, L, W):
     rg = __import__("crlib").repo("roberta_generator")
     moves = [[rng.choice([0, 1, 2, 3]) for _ in range(W)] for _ in range(L)]
@@ -163,6 +234,8 @@ def run(ctx, model=None):
         tl, f = board_graph(rng, L, W)
         check_case(ctx, tl, f, f"board:L{L}xW{W}", model)
     sequences(ctx, rng)
+    many_finals(ctx, rng, model)
+    deep_callers(ctx)
     if not ctx.quick():
         # exhaustive: all graphs on <= 3 states with out-degree <= 2, all single/double finals
         import itertools
